@@ -25,7 +25,7 @@ def s(xs):
 
 def cfg(name, kinds, faults, script="none", conns=(0, 1), versions=(20,), maxcookie=3, budget=3, caps="CapsOne",
         v0=20, v1=20, cserials=(0,), events=(0,), wrong=(), inq=1, objuuids=(101, 102), initserial=0, wrap=False,
-        replay=None, senders=None, pool=("live", "dead", "never"), payloads=(1,)):
+        replay=None, senders=None, pool=("live", "dead", "never"), payloads=(1,), svcuuids=(201,)):
     """replay = fault budget: the configuration is for MC_Replay.tla (history variable, behaviours printed)."""
     text = f"""SPECIFICATION {"Spec" if replay is None else "RSpec"}
 CONSTANTS
@@ -33,7 +33,7 @@ CONSTANTS
   Conns = {s(conns)}
   Versions = {s(versions)}
   ObjUuids = {s(objuuids)}
-  SvcUuids = {{201}}
+  SvcUuids = {s(svcuuids)}
   Events = {s(events)}
   Fns = {{0}}
   CSerials = {s(cserials)}
@@ -77,7 +77,7 @@ cfg("MC_SerialWrap", ["CallFunction", "CallFunctionReply"], [], script="svc", co
     initserial=3, wrap=True)
 
 # thorough configurations (target: <= ~20 min at 16 workers each)
-cfg("MC_Registry_thorough", REG, ["ends", "dropped", "sdb", "sdi"], conns=(0, 1, 2), versions=(20,), maxcookie=4, budget=4)
+cfg("MC_Registry_thorough", REG, ALLF, conns=(0, 1, 2), versions=(20,), maxcookie=4, budget=3)
 cfg("MC_Calls_thorough", CALLS, ["ends", "dropped"], script="svc", conns=(0, 1, 2), cserials=(0, 1), budget=4)
 cfg("MC_Events_thorough", EVENTS, ["ends", "dropped"], script="svc", conns=(0, 1, 2), events=(0, 1), budget=4)
 cfg("MC_Channels_thorough", CHANS, ["ends", "dropped"], script="chan", maxcookie=2, budget=4, caps="CapsMany")
@@ -127,3 +127,8 @@ INTRO = ["RegisterIntrospection", "QueryIntrospection", "QueryIntrospectionReply
 cfg("MC_Intro", INTRO, ["ends", "dropped"], conns=(0, 1, 2), budget=4, cserials=(0,))
 cfg("MC_Intro_thorough", INTRO, ["ends", "dropped", "sdc"], conns=(0, 1, 2), budget=5, cserials=(0, 1))
 cfg("R_Intro", INTRO, ["ends", "dropped"], conns=(0, 1, 2), budget=3, inq=1, replay=1, cserials=(0,))
+
+# a call is pending on one of two services of the same owner: the service goes away, a new call, a late answer
+CALLS2 = ["CallFunction", "CallFunctionReply", "DestroyService"]
+cfg("R_CallsP2", CALLS2, [], script="pend2", budget=3, inq=1, replay=0, pool=("live", "dead"), cserials=(1,), objuuids=(101,), svcuuids=(201, 202), maxcookie=3)
+cfg("MC_CallsP2", CALLS2 + ["AbortFunctionCall"], ["ends"], script="pend2", budget=4, pool=("live", "dead"), cserials=(1,), objuuids=(101,), svcuuids=(201, 202), maxcookie=3)
